@@ -407,8 +407,30 @@ def evaluate(mod, cases):
     t_impl = time.time()
     per = []
     all_ops = []
+    code_changed = None
+
+    def harness_failed(c, what):
+        """The harness itself could not process a case.  On the code the check was tuned on that is a bug of the machinery
+        (exit 2).  When the anchored code differs from the recorded fingerprint it means the harness cannot interpret what the
+        changed implementation does: the correspondence cannot be established for this case (reported at the end as a broken
+        tie, `no-failing-input-found` unless the remaining cases exhibit a failing input)."""
+        nonlocal code_changed
+        if code_changed is None:
+            code_changed = bool(anchored_files_changed(mod.PROP)) and os.environ.get("VERIF_ESCALATE", "1") != "2"
+        if not code_changed:
+            return False
+        TIE_BROKEN.setdefault("Error:TieBroken:the harness cannot interpret the changed implementation: " + what[:160], []).append(clean(c))
+        return True
+
     for c in cases:
-        ia = mod.impl(c)
+        try:
+            ia = mod.impl(c)
+        except InfraError:
+            raise
+        except Exception as e:  # noqa: BLE001
+            if harness_failed(c, f"impl(): {type(e).__name__}: {e}"):
+                continue
+            raise
         tb = [a[a.index("Error:TieBroken:"):] if "Error:TieBroken:" in a else a for a in ia
               if isinstance(a, str) and ("Error:TieBroken:" in a or a in ("Error:ImportError", "Error:ModuleNotFoundError"))]
         if tb:
@@ -418,12 +440,21 @@ def evaluate(mod, cases):
             # correspondence is reported, with no-failing-input-found when the search finds nothing).
             TIE_BROKEN.setdefault(tb[0], []).append(clean(c))
             continue
-        ops = mod.ops(c)
+        try:
+            ops = mod.ops(c)
+        except InfraError:
+            raise
+        except Exception as e:  # noqa: BLE001
+            if harness_failed(c, f"ops(): {type(e).__name__}: {e}"):
+                continue
+            raise
         if len(ia) == 1 and len(ops) > 1 and isinstance(ia[0], str) and (
             ia[0].startswith("Error:") or ia[0] in ("IndexError", "ValueError", "RuntimeError", "NotImplementedError", "TypeError", "KeyError")
         ):
             # the implementation raised before any of the observations could be made: every one of them is that error
             ia = ia * len(ops)
+        if len(ia) != len(ops) and harness_failed(c, f"impl gave {len(ia)} answers for {len(ops)} ops"):
+            continue
         if len(ia) != len(ops):
             raise InfraError(f"{mod.PROP}: impl gave {len(ia)} answers for {len(ops)} ops: {c}")
         per.append((c, ia, len(all_ops), len(ops)))
@@ -437,11 +468,25 @@ def evaluate(mod, cases):
     for c, ia, off, n in per:
         ma = answers[off : off + n]
         dis = []
-        for i in range(n):
-            ok = agree(c, i, ia[i], ma[i]) if agree else (ia[i] == ma[i])
-            if not ok:
-                dis.append(i)
-        clause = mod.oracle(c, ia)
+        try:
+            for i in range(n):
+                ok = agree(c, i, ia[i], ma[i]) if agree else (ia[i] == ma[i])
+                if not ok:
+                    dis.append(i)
+        except InfraError:
+            raise
+        except Exception as e:  # noqa: BLE001
+            if harness_failed(c, f"agree(): {type(e).__name__}: {e}"):
+                continue
+            raise
+        try:
+            clause = mod.oracle(c, ia)
+        except InfraError:
+            raise
+        except Exception as e:  # noqa: BLE001
+            if harness_failed(c, f"oracle(): {type(e).__name__}: {e}"):
+                continue
+            raise
         out.append({"case": c, "impl": ia, "model": ma, "disagree": dis, "clause": clause, "ops": all_ops[off : off + n]})
     return out, t_impl, t_model
 
